@@ -1,7 +1,7 @@
 (* Lemmas about the stack machine: running the post-fix serialisation of a tree
    pushes exactly the reference rendering; quote doubling is invertible. *)
 From Coq Require Import ZArith NArith List Bool Arith Lia.
-From NP Require Import Model.PyBase Model.FormulaStack Model.Expr Proofs.ExprP.
+From NP Require Import Model.PyBase Model.FormulaStack Model.Expr Proofs.ExprP Proofs.ExprFuelP.
 Import ListNotations.
 Open Scope nat_scope.
 
@@ -329,3 +329,12 @@ Proof.
   cbn [FormulaStack.run bind stack_text map concat]. rewrite str_of_top, app_nil_r. reflexivity.
 Qed.
 End RUN.
+
+(* both halves together: the reported text is the character rendering of a token sequence that the
+   parser reads back as the stored tree *)
+Lemma formula_denotes_tree_lemma (fmap : N -> option str) (prec : binop -> nat) (e : expr) :
+  renderable e = true -> wf prec e ->
+  exists ts, formula_text fmap (compile e) = Ok (text fmap ts) /\ parse prec ts = Some e.
+Proof.
+  intros Hr Hw. exists (show e). split; [now apply formula_text_compile|now apply parse_show_lemma].
+Qed.
